@@ -13,6 +13,9 @@ import (
 	"github.com/dtn7/dtn7-go/pkg/cla/tcpclv4/internal/msgs"
 )
 
+// maxSegmentLen limits the data of one XFER_SEGMENT, whatever Segment MRU the peer has announced.
+const maxSegmentLen uint64 = 1048576
+
 // OutgoingTransfer represents an outgoing Bundle Transfer for the TCPCLv4.
 type OutgoingTransfer struct {
 	Id uint64
@@ -58,6 +61,11 @@ func (t *OutgoingTransfer) NextSegment(mtu uint64) (dtm *msgs.DataTransmissionMe
 		// A peer announcing a Segment MRU of zero cannot receive any data; empty segments would be sent forever.
 		err = fmt.Errorf("segment MTU of zero, no data can be transferred")
 		return
+	}
+
+	if mtu > maxSegmentLen {
+		// The buffer below is allocated before any data is read; do not let the peer choose its size.
+		mtu = maxSegmentLen
 	}
 
 	var segFlags msgs.SegmentFlags
